@@ -76,9 +76,9 @@ package message
 //@   loop 1: iteration ghost n0 := len(addrs)
 //@   loop 1: iteration ghost failed := false
 //@   loop 1: iteration ghost unknown := false
-//@   at call NewMultiaddrBytes#1: after ghost failed := result1 != nil
-//@   at call Contains#1: after ghost unknown := result
-//@   at call NewMultiaddrBytes#1: assert arg0 == m.Addrs[rangeindex]
+//@   at call NewMultiaddrBytes: after ghost failed := result1 != nil
+//@   at call Contains: after ghost unknown := result
+//@   at call NewMultiaddrBytes: assert arg0 == m.Addrs[rangeindex]
 //@   loop 1: iteration ensures (!failed && len(addrs) == n0 + 1) || (failed && unknown && len(addrs) == n0)
 //@   ensures result1 == nil ==> len(result0) <= len(m.Addrs)
 //@   ensures result1 != nil ==> result0 == nil
